@@ -5,6 +5,7 @@
 // parameters, and all can record what the library handed them.
 #pragma once
 #include "../props/common.hpp"
+#include <functional>
 
 namespace env
 {
@@ -424,6 +425,11 @@ struct CallCtx
     long calls_seen = 0;
     bool aborted = false;
     uint64_t abort_seg_mask = 0; // running cost fails on every sample of these segments (condition-based failure)
+    // re-entrancy: at the reenter_call-th running-cost call the functor itself uses the library (another optimizer of the
+    // same type, its own workspace) before it returns - a multi-agent cost
+    std::function<void()> reenter;
+    long reenter_call = -1;
+    long rc_calls = 0;
     void maybe_abort(int functor)
     {
         if (abort_functor != functor) return;
@@ -453,6 +459,7 @@ struct SimTimeCost
             cost += P.tw[i] * Ts[i] + 0.5 * P.tq * Ts[i] * Ts[i];
             double g = P.tw[i] + P.tq * Ts[i] + 2.0 * P.tc * sum;
             if (cc->fault.functor == 1 && cc->fault.slot == (int)i) g += cc->fault.delta;
+            if (cc->fault.functor == 4) continue; // the faulty functor computes its cost but never writes a gradient
             if (P.time_accumulate) grad((Eigen::Index)i) += g;
             else grad((Eigen::Index)i) = g;
         }
@@ -512,6 +519,13 @@ struct SimRunningCost
             throw InjectedAbort(); // a condition-based failure: every sample of these segments fails
         }
         const CostProgram<DIM> &P = *cc->prog;
+        if (cc->reenter)
+        {
+            bool go;
+            { NoRace g; go = (cc->rc_calls++ == cc->reenter_call); }
+            if (go) cc->reenter();
+        }
+        if (P.style == 4) return 0.0; // no running cost at all (a single functor checked in isolation)
         if (P.style == 1)
         {
             // linear in one coordinate: exactly zero where that coordinate is zero, with a non-zero gradient
